@@ -802,6 +802,73 @@ def r4_cert_kind(k: Kit) -> None:
                       k.loc(fi, nd), g.describe_path(w) if w else None)
 
 
+def r3_case(k: Kit) -> None:
+    """Option keywords are case-insensitive (sshd(8))."""
+    from ..flow import PARAM
+    rep = k.rep
+    rep.rule('C17.R3', 'option keywords of authorized_keys / allowed-signers '
+             'lines are matched without regard to case: OptionsParser.'
+             '_add_option lower-cases the name before the handler lookup and '
+             'before it is stored, and the server looks restrictions up by '
+             'lower-cased name (a restriction written FROM= or No-Pty must '
+             'not be silently ignored)')
+    fi = k.func('misc.OptionsParser._add_option')
+    g = k.cfg(fi)
+    rd = k.rd(fi)
+    uses = 0
+    for nd in g.nodes:
+        for c in g.calls_at(nd):
+            keyarg = None
+            if isinstance(c.func, ast.Attribute) and \
+                    c.func.attr in ('get', 'setdefault') and c.args and \
+                    (dotted(c.func.value) or '').startswith('self.'):
+                keyarg = c.args[0]
+            if keyarg is None:
+                continue
+            uses += 1
+            _lower_ok(k, rep, fi, g, rd, nd, keyarg)
+        a = nd.ast
+        if nd.kind == 'stmt' and isinstance(a, ast.Assign) and \
+                isinstance(a.targets[0], ast.Subscript) and \
+                dotted(a.targets[0].value) == 'self.options':
+            uses += 1
+            _lower_ok(k, rep, fi, g, rd, nd, a.targets[0].slice)
+    rep.floor('C17.R3', 'option name uses in _add_option', uses, 3)
+    for qual in ('connection.SSHServerConnection.check_key_permission',
+                 'connection.SSHServerConnection.get_key_option'):
+        f = k.func(qual)
+        gets = [c for n_, c in k.calls_named(f, 'get')
+                if dotted(c.func.value) == 'self._key_options' and c.args]
+        okl = bool(gets) and all(any(
+            is_call(x, 'lower') for x in ast.walk(c.args[0])
+            if isinstance(x, ast.Call)) for c in gets)
+        rep.check(okl, 'C17.R3', key(f, 'lookup by lower-cased name'),
+                  'the stored (lower-case) name is what is looked up',
+                  f'{qual} looks the option up as spelled by its caller '
+                  '(e.g. no-X11-forwarding) while the parser stores '
+                  'lower-case names: the restriction is never found',
+                  f.loc(f.node))
+
+
+def _lower_ok(k, rep, fi, g, rd, nd, expr) -> None:
+    from ..flow import PARAM
+    ok = any(is_call(x, 'lower') for x in ast.walk(expr)
+             if isinstance(x, ast.Call))
+    if not ok and isinstance(expr, ast.Name):
+        defs = rd.defs_of(nd.id, expr.id)
+        ok = bool(defs) and all(
+            d != PARAM and any(
+                is_call(x, 'lower') for x in ast.walk(g.nodes[d].ast)
+                if isinstance(x, ast.Call)) for d in defs)
+    rep.check(ok, 'C17.R3', key(fi, f'`{norm(expr)}` lower-cased at '
+                                f'`{norm(nd.ast)[:40]}`'),
+              'the option name used here is lower-cased',
+              f'`{norm(expr)}` is used as the option name as written in the '
+              'file: an option spelled with other capitals (FROM=, No-Pty) '
+              'misses its handler / its lookup and is not enforced',
+              k.loc(fi, nd))
+
+
 def run(idx, rep, tier):
     k = Kit(idx, rep)
     rep.assumptions += NOT_DECIDED
@@ -811,6 +878,7 @@ def run(idx, rep, tier):
     r2(k)
     r3(k)
     r3_accumulate(k)
+    r3_case(k)
     r4(k)
     r4_cert_kind(k)
     r5(k)
